@@ -166,6 +166,7 @@ def circulators(ck, fb):
     ck.rule("C05.circ--", "operator-- mirrors ++: at the beginning wrap to size-1 and decrement lap_, invalidate iff lap_ < 0, otherwise step back; refresh cur_handle on every path on which the circulator stays valid")
     ck.rule("C05.delegate", "a circulator built on an inner circulator steps the inner one and synchronises lap, valid and cur_handle from it in ++ and --")
     ck.rule("C05.laps", "every circulator constructor forwards its _max_laps parameter to BaseCirculator and to every inner circulator it constructs")
+    ck.rule("C05.empty", "constructors of circulators whose incident set can be empty for a legal centre (target dimension >= centre dimension, boundary and sheet circulators) read the first element only behind valid()/size()/empty() - a centre with nothing incident yields an immediately invalid circulator")
     ck.rule("C05.set", "circulators over a set relation remove duplicates (sort+unique or std::set membership) before the first element is exposed")
     classes = circ_classes(fb)
     n_ops = 0
@@ -258,6 +259,25 @@ def circulators(ck, fb):
                 if cont and idxs:
                     ok = cont in idxs
                     (ck.ok if ok else lambda r, w, t: ck.violate(r, w, t, "%s:%s:container" % (rule, key)))(rule, f.loc(hx), "%s ++: the wrap test measures %s, the handle is read from %s" % (short, cont, idxs))
+        # constructors of circulators whose incident set can be empty: the first element is only read behind an emptiness guard
+        dims = {"VH": 0, "EH": 1, "HEH": 1, "FH": 2, "HFH": 2, "CH": 3}
+        base = [b for b in fb.bases(cls) if b.startswith("OpenVolumeMesh::BaseCirculator<")]
+        downward = False
+        if base:
+            args = base[0][len("OpenVolumeMesh::BaseCirculator<"):-1].replace("OpenVolumeMesh::", "").split(",")
+            if len(args) == 2 and args[0].strip() in dims and args[1].strip() in dims:
+                downward = dims[args[1].strip()] < dims[args[0].strip()]
+        if not downward:
+            for f in ctors:
+                for b, i, x in f.nodes(("call",)):
+                    if x.get("pn", "").endswith("::cur_handle") and x.get("a") and b in f.reach():
+                        tree = f.resolve(x["a"])
+                        reads = [y for y in walk(tree) if isinstance(y, dict) and (y.get("k") == "idx" or (y.get("k") == "un" and y.get("op") == "*") or (y.get("k") == "call" and y.get("op") == "*"))]
+                        if not reads:
+                            continue
+                        facts = [(estr(c), pol) for c, pol, e in f.facts(b)]
+                        ok = any(("valid()" in s2 and pol is True) or ("size()" in s2) or ("empty()" in s2) or (".end()" in s2 and "!=" in s2 and pol is True) for s2, pol in facts)
+                        (ck.ok if ok else lambda r, w, t: ck.violate(r, w, t, "C05.empty:%s" % short))("C05.empty", f.loc(x), "%s constructor reads its first element only behind an emptiness/validity guard" % short)
         # constructors: _max_laps forwarding
         for f in ctors:
             mlp = [p for p in f.d["params"] if p["t"] == "int"]
